@@ -59,9 +59,9 @@ def scripts_for(pid, tier, seed, fx):
             rnd(rng.sample(plain, 3), 1, 60)
     elif pid == "C03":
         for _, p in KINDS:
-            f = p + "_plain_ret"
-            for s in seqs([1, 2, 3], 4):
-                add([f], [{"op": "call", "f": f, "k": k} for k in s], threads=1)
+            for f in (p + "_plain_ret", p + "_plain_long"):
+                for s in seqs([1, 2, 3], 4):
+                    add([f], [{"op": "call", "f": f, "k": k} for k in s], threads=1)
             f = p + "_plain"
             L = 6 if thorough else 5
             for s in seqs([1, 2, 3], L):
@@ -85,6 +85,16 @@ def scripts_for(pid, tier, seed, fx):
                         + [{"op": "call", "f": f, "k": 3, "ok": True, "size": 70},
                            {"op": "call", "f": f, "k": 1, "ok": True, "size": 70}])
                 rnd([f], 150 if thorough else 4, 80 if thorough else 60)
+            # ... with invalidate_on: a stale Ok is recomputed; if that fails nothing is stored (and the stale
+            # Ok must not be served either), the next Ok is stored
+            for f in (p + "_res_inv", p + "_res_inv_lru2"):
+                alpha = [{"op": "call", "f": f, "k": 1, "ok": True, "inv": False}, {"op": "call", "f": f, "k": 1, "ok": False, "inv": True},
+                         {"op": "call", "f": f, "k": 1, "ok": True, "inv": True}, {"op": "call", "f": f, "k": 1, "ok": False, "inv": False},
+                         {"op": "call", "f": f, "k": 2, "ok": True, "inv": False}]
+                for s in seqs(alpha, 5 if thorough else 4):
+                    add([f], [dict(o) for o in s] + [{"op": "call", "f": f, "k": 1, "ok": True, "inv": False},
+                                                     {"op": "call", "f": f, "k": 1, "ok": True, "inv": False}])
+                rnd([f], 100 if thorough else 3, 60)
             # ... with a ttl: an Ok expires, the recomputation fails (nothing is stored), later Oks are stored
             f = p + "_res_ttl2"
             alpha = [{"op": "call", "f": f, "k": 1, "ok": True}, {"op": "call", "f": f, "k": 1, "ok": False},
@@ -109,7 +119,8 @@ def scripts_for(pid, tier, seed, fx):
             rnd([f], 150 if thorough else 4, 80 if thorough else 60)
     elif pid == "C11":
         for _, p in KINDS:
-            for f in (p + "_inv", p + "_inv_lru2", p + "_inv_cif", p + "_inv_lfu2", p + "_inv_arc2", p + "_inv_tlru3_ttl3", p + "_inv_random2"):
+            for f in (p + "_inv", p + "_inv_lru2", p + "_inv_cif", p + "_inv_lfu2", p + "_inv_arc2", p + "_inv_tlru3_ttl3", p + "_inv_random2",
+                      p + "_res_inv_lru2"):
                 for s in seqs([(1, True), (1, False), (2, True), (2, False)], 5 if thorough else 4):
                     add([f], [{"op": "call", "f": f, "k": k, "inv": i, "cif": True} for (k, i) in s]
                         + [{"op": "call", "f": f, "k": 1, "inv": False}, {"op": "call", "f": f, "k": 2, "inv": False}])
